@@ -218,8 +218,8 @@ def other_process_job(arg):
 
     from vp.worker import run_segment
 
-    placement, producer, edit, store, idx = arg
-    rep = core.Report("C09")
+    placement, producer, edit, store, idx = arg[:5]
+    rep = core.Report(arg[5] if len(arg) > 5 else "C09")
     rep.evaluations = 1
     p0 = build("c9o_%d" % idx, placement, producer, "earlier_eval", False, "assign")
     p1, d = edits_of(p0, edit)
@@ -325,9 +325,9 @@ def run(tier, seed):
     for placement in PLACEMENTS:
         for producer in PRODUCERS:
             for ei, edit in enumerate(("prod_const", "prod_var", "prod_callee")):
-                for si, store in enumerate(("local", "local_lru", "dbfs")):
+                for si, store in enumerate(("local", "local_lru", "dbfs", "local_api_cache_all", "local_api_cache_true")):
                     idx += 1
-                    if tier == "quick" and (ei + si + len(placement)) % 3 == 0 and store != "local_lru":
+                    if tier == "quick" and (ei + si + len(placement)) % 3 == 0 and store not in ("local_lru", "local_api_cache_all"):
                         continue
                     ojobs.append((placement, producer, edit, store, idx))
     results = core.fork_map(lambda j: other_process_job(j[1]) if j[0] == "o" else case_job(j[1]), [("c", j) for j in jobs] + [("o", j) for j in ojobs], timeout=900)
